@@ -51,8 +51,9 @@ SPEC = {
                    "The header cases observe the header through openMapped on a fresh file (one process creates files with metadata "
                    "of many lengths, long before short). A writer that can no longer open the file it wrote ends its session "
                    "as a `lockout` case (oracle own-file-refused), a panicking race writer is recorded, not fatal. "
-                   "Encoder files also with the exact (unrounded) end of the last record as the limit: those are judged against the "
-                   "encoder's own list (oracle library-reads-spec-file), the layout checker itself wants a 32-aligned limit. "
+                   "Encoder files also with the exact (unrounded) end of the last record as the limit: the layout checker accepts any "
+                   "limit at or after the end of the last record's bytes (the rounded limit is a proved fact about the writer, "
+                   "C10_writer_limit_rounded), so those files are compared with the Coq layout reader and the model of Parse like the rest. "
                    "Oracle header-length: a library-written header has round32(32+len(metadata)) bytes. "
                    "Oracles added for every sequence: the metadata of the file stays the one it was created with; one newCounter "
                    "grows the file by at most two pages (a file the code blew up is reported by size, not put on the wire). "
